@@ -281,8 +281,10 @@ def build(tier):
                     ret="saved",
                     ensures=[("restores_call", "saved@ =~= restore_of_call(*receiver_value, arg_values@)")],
                     hints=[dict(anchor="let mut saved_values", where="after_stmt", text="let ghost init = saved_values@;")],
-                    loops={1: dict(invariant=[("built", "__i1 <= arg_values@.len(), saved_values@ =~= init + rev_from(arg_values@, __i1 as int)")],
-                                   decreases="__i1")},
+                    # (a builder without a loop cannot satisfy the postcondition for every argument count: it is
+                    # reported through the postcondition, not as an extraction error)
+                    loops=({1: dict(invariant=[("built", "__i1 <= arg_values@.len(), saved_values@ =~= init + rev_from(arg_values@, __i1 as int)")],
+                                    decreases="__i1")} if re.search(r"\bfor\b", it.text) else {}),
                     props=c07, canary=False),
                 qual="%s[%s]" % (hname, label))
             total += 1
